@@ -413,9 +413,23 @@ def nested_family(ctx):
                     "method-body-calls-faulting-function": ({("body", "K0.m"): [call_f1, call_m]},
                                                             [{"op": "new", "cls": 0, "k": 0, "args": {}}, call_m, call_f0]),
                 }
-                for sname, (scripts, ops) in scenarios.items():
-                    if is_async and sname != "reenter-after-inner-fault" and False:
-                        continue
+                # a class without __init__ whose __new__ hands out the one existing instance: constructing it again from a
+                # method body is a checked call on the object whose method is running; afterwards the object must still
+                # count as being in that method (the nested n() is not checked), and after m() it must be re-armed
+                n = dict(m, name="n")
+                snew = {"name": "__new__", "kind": "new", "async": False, "params": ["x", "y"],
+                        "defaults": {"x": "None", "y": "None"}, "decos": [], "body": {"ret": "None"}, "singleton": True}
+                k0s = {"name": "K0", "bases": [], "root": "DBC", "shape": "noinit", "invs": [inv], "members": [m, n, snew]}
+                prog_s = {"funcs": [f0, f1], "classes": [k0s]}
+                call_n = {"op": "call", "k": 0, "m": "n", "args": {"x": "a:s"}}
+                new0 = {"op": "new", "cls": 0, "k": 0, "args": {}}
+                scenarios["method-body-constructs-the-same-object-again"] = (
+                    {("body", "K0.m"): [new0, call_n]}, [new0, call_m, call_n, call_m], prog_s)
+                for sname, sc in scenarios.items():
+                    scripts, ops = sc[0], sc[1]
+                    prog = sc[2] if len(sc) > 2 else prog
+                    if len(sc) > 2 and role == "ensure":
+                        continue  # the function contracts play no part in these two
                     for code in ("T", "F"):
                         truth = {1: [code], 2: ["T"], 3: ["T"]}
                         case = {"program": prog, "ops": ops, "scripts": [[list(k), v] for k, v in scripts.items()], "fuel": 3,
